@@ -2,7 +2,7 @@
     sniproxy/tls_hello_conn.go (Gen/HelloConsts.v).  Each is decided by
     computation; when the source changes, the [Lemma] stops checking. *)
 From Coq Require Import List NArith Bool String Lia.
-From Verif Require Import Lib.Bytes Sni.Wire Sni.Hello Gen.HelloConsts.
+From Verif Require Import Lib.Bytes Sni.Wire Sni.Hello Sni.Handover Gen.HelloConsts.
 Import ListNotations.
 Local Open Scope N_scope.
 
@@ -22,6 +22,13 @@ Lemma gen_header_consts :
   gen_hello_header_len = header_len /\ gen_hello_handshake = rec_handshake.
 Proof. split; reflexivity. Qed.
 
+(** TLSHelloConn.Read hands bytes over from the peek buffer to the connection
+    under a policy that loses nothing ([Sni/HandoverProofs.v]): it always reads
+    through the bufio.Reader, or goes to the connection only when the buffer
+    is empty. *)
+Lemma gen_read_handover_transparent : handover_transparentb gen_read_handover = true.
+Proof. vm_compute. reflexivity. Qed.
+
 Local Open Scope string_scope.
 
 (** The bodies the model of Sni/Hello.v was written against. *)
@@ -38,7 +45,8 @@ Definition frozen_headerConn_Write : string := "{ return 0, io.EOF }".
 
 Definition hello_src_frozenb : bool :=
   String.eqb gen_hello_src_TLSHelloConn_HelloInfo frozen_HelloInfo
-  && String.eqb gen_hello_src_TLSHelloConn_Read frozen_Read
+  && (String.eqb gen_hello_src_TLSHelloConn_Read frozen_Read
+      || handover_eqb gen_read_handover HoWhenDrained)   (* Read is emitted as a policy, not frozen *)
   && String.eqb gen_hello_src_nameSinkTLSConfig frozen_nameSink
   && String.eqb gen_hello_src_headerConn_Read frozen_headerConn_Read
   && String.eqb gen_hello_src_headerConn_Write frozen_headerConn_Write.
